@@ -86,7 +86,7 @@ struct Side
 	int64_t received = 0;
 	bool eof = false, reader_dead = false;
 	std::vector<uint8_t> rbuf[3];
-	std::unique_ptr<asio::high_resolution_timer> shadow;
+	std::unique_ptr<asio::high_resolution_timer> shadow, past;
 	ReadSpec cur_r;
 	// close bookkeeping
 	bool closed_by_us = false;
@@ -231,6 +231,15 @@ struct Tcp
 	}
 	void arm_shadow(Side& s)
 	{
+		if (plan.c("past_timer", 0) && now_ns() > 1000)
+		{
+			// an application timer whose deadline has already passed: it completes at once and leaves the clock - and with it
+			// the time stamps of everything sent afterwards - where it is
+			if (!s.past) s.past.reset(new asio::high_resolution_timer(node(s.side)));
+			s.past->expires_at(sim::chrono::high_resolution_clock::time_point(duration(now_ns() / 2)));
+			s.past->async_wait([this](error_code const&) { ++ctx.handlers; });
+			ctx.hit("timer_armed_in_the_past");
+		}
 		if (!plan.c("shadow_timer", 0)) return;
 		int64_t const d = shadow_delay(s.side);
 		if (d <= 0) return;
@@ -774,17 +783,25 @@ struct Tcp
 		}
 		asio::io_context& ctxS = multi ? *nodeU : *nodeA;
 		asio::io_context& ctxR = multi ? *nodeV : *nodeB;
-		int const ndst = multi ? 2 : 1;
-		udp::socket sa(ctxS);
-		std::unique_ptr<udp::socket> sb[2];
-		sa.open(udp::v4());
-		sa.bind(udp::endpoint(U[0], 6000));
-		sa.non_blocking(true);
+		// destination 2 (C20) is a socket on the sender's own node, bound to its other address: the path MTU of two
+		// addresses of one node is the configuration's to say, like any other
+		int const ndst = multi ? 3 : 1;
+		std::unique_ptr<udp::socket> sap(new udp::socket(ctxS));
+		std::unique_ptr<udp::socket> sb[3];
+		sap->open(udp::v4());
+		sap->bind(udp::endpoint(U[0], 6000));
+		sap->non_blocking(true);
+		int m_same = mtuAB;
+		if (multi)
+		{
+			m_same = int(std::max<int64_t>(64, std::min<int64_t>(9000, plan.c("umtu4", mtuAB + 37))));
+			net.set_mtu(U[0], U[1], m_same);
+		}
 		struct Sent { int64_t size; uint64_t hash; bool expect; int mtu; };
-		std::vector<Sent> expected[2];
-		std::vector<std::pair<int64_t, uint64_t>> got[2];
-		std::vector<uint8_t> rbuf[2];
-		udp::endpoint from[2];
+		std::vector<Sent> expected[3];
+		std::vector<std::pair<int64_t, uint64_t>> got[3];
+		std::vector<uint8_t> rbuf[3];
+		udp::endpoint from[3];
 		std::function<void(int)> recv = [&](int d) {
 			sb[d]->async_receive_from(asio::buffer(rbuf[d]), from[d], [&, d](error_code const& ec, std::size_t n) {
 				++ctx.handlers;
@@ -795,9 +812,9 @@ struct Tcp
 		};
 		for (int d = 0; d < ndst; ++d)
 		{
-			sb[d].reset(new udp::socket(ctxR));
+			sb[d].reset(new udp::socket(d == 2 ? ctxS : ctxR));
 			sb[d]->open(udp::v4());
-			sb[d]->bind(udp::endpoint(V[d], 6001));
+			sb[d]->bind(d == 2 ? udp::endpoint(U[1], 6002) : udp::endpoint(V[d], 6001));
 			sb[d]->non_blocking(true);
 			rbuf[d].resize(70000);
 			recv(d);
@@ -813,8 +830,9 @@ struct Tcp
 			if (idx >= uops.size()) return;
 			Op const& o = uops[idx++];
 			int const opt = int(uint64_t(o.a) % 4);
-			int const dst = multi ? int(uint64_t(o.d) % 2) : 0;
+			int dst = multi ? int(uint64_t(o.d) % 2) : 0;
 			error_code ec;
+			udp::socket& sa = *sap;
 			if (multi && (uint64_t(o.d) / 2) % 3 == 1)
 			{
 				// the same socket object moves to the node's other address; the option is stated again afterwards
@@ -828,10 +846,19 @@ struct Tcp
 				if (state == 0) state = 2;
 				ctx.hit("udp_sender_rebound");
 			}
-			if (opt == 1) { sa.set_option(df_opt(IP_PMTUDISC_DO), ec); state = 1; }
-			else if (opt == 2) { sa.set_option(df_opt(IP_PMTUDISC_DONT), ec); state = 2; }
-			else if (opt == 3) { sa.set_option(boost::asio::detail::socket_option::boolean<IPPROTO_IP, IP_DONTFRAGMENT>(true), ec); state = 1; }
-			int const mtu = m[cur][dst];
+			if (multi && (uint64_t(o.d) / 2) % 3 == 2)
+			{
+				// the socket (nothing outstanding on it) is moved into a new object and used from there: its options go with it
+				std::unique_ptr<udp::socket> n2(new udp::socket(std::move(*sap)));
+				sap = std::move(n2);
+				ctx.hit("udp_sender_moved");
+			}
+			udp::socket& sa2 = *sap;
+			if (multi && (uint64_t(o.b) / 20) % 4 == 0 && cur == 0) dst = 2; // to the node's own other address
+			if (opt == 1) { sa2.set_option(df_opt(IP_PMTUDISC_DO), ec); state = 1; }
+			else if (opt == 2) { sa2.set_option(df_opt(IP_PMTUDISC_DONT), ec); state = 2; }
+			else if (opt == 3) { sa2.set_option(boost::asio::detail::socket_option::boolean<IPPROTO_IP, IP_DONTFRAGMENT>(true), ec); state = 1; }
+			int const mtu = dst == 2 ? m_same : m[cur][dst];
 			int64_t size = mtu + (o.b % 5) - 2; // MTU-2 .. MTU+2
 			if ((o.c % 4) == 1) size = (c19 ? 65507 : 65535) - (o.b % 3); // C19: sizes that fit one IPv4 packet
 			if ((o.c % 4) == 2) size = std::max<int64_t>(1, o.b % 3000);
@@ -840,7 +867,7 @@ struct Tcp
 			if (size > 65535) size = 65535;
 			std::vector<uint8_t> data(static_cast<size_t>(size));
 			for (size_t i = 0; i < data.size(); ++i) data[i] = stream_byte(0xdf00 + idx, int64_t(i));
-			std::size_t const n = sa.send_to(asio::buffer(data), udp::endpoint(V[dst], 6001), 0, ec);
+			std::size_t const n = sa2.send_to(asio::buffer(data), dst == 2 ? udp::endpoint(U[1], 6002) : udp::endpoint(V[dst], 6001), 0, ec);
 			ctx.tr.rec("udp_send", {state, ec.value(), cur, dst}, {size, int64_t(n)});
 			if (ec == boost::asio::error::would_block) { /* not sent */ }
 			else if (ec) fail("mtu.udp.send_error", "send_to failed: " + ec.message());
@@ -896,7 +923,8 @@ struct Tcp
 			}
 		}
 		for (int d = 0; d < ndst; ++d) { sb[d]->close(cec); sb[d].reset(); }
-		sa.close(cec);
+		sap->close(cec);
+		sap.reset();
 	}
 
 	// ------------------------------------------------------------ main
@@ -1047,7 +1075,7 @@ struct Tcp
 		// teardown: objects before their contexts, contexts before the simulation
 		for (int c = 0; c < nconn; ++c)
 		{
-			for (int sd = 0; sd < 2; ++sd) { sides[c][sd].timer.reset(); sides[c][sd].shadow.reset(); sides[c][sd].sock.reset(); sides[c][sd].spare.reset(); }
+			for (int sd = 0; sd < 2; ++sd) { sides[c][sd].timer.reset(); sides[c][sd].shadow.reset(); sides[c][sd].past.reset(); sides[c][sd].sock.reset(); sides[c][sd].spare.reset(); }
 			acceptors[c].reset();
 		}
 		nodeA.reset(); nodeB.reset();
@@ -1176,13 +1204,14 @@ struct TcpEngine : Engine
 		{
 			// path MTUs of the other three address pairs of the UDP part
 			std::vector<int64_t> const pool{64, 100, 300, 576, 1000, 1200, 1475, 1500, 4000, 9000};
-			for (char const* k : {"umtu1", "umtu2", "umtu3"})
+			for (char const* k : {"umtu1", "umtu2", "umtu3", "umtu4"})
 				p.cfg[k] = rng.chance(0.3) ? int64_t(rng.range(64, 9000)) : rng.pick(pool);
 		}
 		p.cfg["accept_variant"] = int64_t(rng.below(3));
 		p.cfg["early_write"] = rng.chance(0.15) ? 1 : 0;
 		p.cfg["shadow_timer"] = rng.chance(0.2) ? 1 : 0;
 		p.cfg["same_port"] = rng.chance(0.1) ? 1 : 0;
+		p.cfg["past_timer"] = rng.chance(0.1) ? 1 : 0;
 		bool const finite = (c06 && rng.chance(0.7)) || (c05 && rng.chance(0.35));
 		int nconn = 1;
 		if (!finite || !c06) nconn = int(rng.range(1, c20 ? 2 : 3));
